@@ -112,12 +112,13 @@ class VConn(asyncio.Transport):
 class VUdp(asyncio.DatagramTransport):
     """An in-memory UDP endpoint bound to a port of the virtual host."""
 
-    def __init__(self, net: "VNet", loop, protocol, port):
+    def __init__(self, net: "VNet", loop, protocol, port, reuse_port: bool = False):
         super().__init__()
         self.net = net
         self.loop = loop
         self.protocol = protocol
         self.port = port
+        self.reuse_port = reuse_port      # SO_REUSEPORT: other sockets with the same option may bind the port as well
         self.closing = False
         self.released = False
 
@@ -132,8 +133,14 @@ class VUdp(asyncio.DatagramTransport):
 
     def _release(self):
         self.released = True
+        group = self.net.shared.get(self.port, [])
+        if self in group:
+            group.remove(self)
         if self.net.udp.get(self.port) is self:
-            del self.net.udp[self.port]
+            if group:
+                self.net.udp[self.port] = group[-1]      # the port stays taken by the remaining SO_REUSEPORT sockets
+            else:
+                del self.net.udp[self.port]
         self.protocol.connection_lost(None)
 
     def abort(self):
@@ -152,7 +159,8 @@ class VNet:
     def __init__(self):
         self.tcp: dict[tuple[str, int], bool] = {}   # address -> accepts connections
         self.conns: list[VConn] = []
-        self.udp: dict[int, VUdp] = {}
+        self.udp: dict[int, VUdp] = {}               # port -> the (latest) socket bound to it
+        self.shared: dict[int, list[VUdp]] = {}      # port -> all live sockets bound with SO_REUSEPORT
         self.occupied: set[int] = set()              # ports held by somebody else
         self.queue: asyncio.Queue | None = None      # (conn, data) in arrival order
         self.on_write_hook: Callable[[VConn, bytes], None] | None = None
@@ -177,9 +185,12 @@ class VNet:
 
     def send_udp(self, loop, port: int, data: bytes) -> bool:
         ep = self.udp.get(port)
+        group = [e for e in self.shared.get(port, []) if not e.closing]
+        VNet.nsrc += 1
+        if len(group) > 1:
+            ep = group[VNet.nsrc % len(group)]       # the kernel hands each datagram to ONE of the sockets sharing the port
         if ep is None or ep.closing:
             return False
-        VNet.nsrc += 1
         loop.call_soon(self._deliver, ep, data, self.SOURCES[(VNet.nsrc * 7 + VNet.nsrc // 5) % len(self.SOURCES)])
         return True
 
@@ -216,11 +227,15 @@ class VLoop(asyncio.SelectorEventLoop):
         port = local_addr[1]
         if not 0 <= port <= 65535:
             raise OverflowError("bind(): port must be 0-65535.")        # what socket.bind raises for such a number
-        if port in self.net.udp or port in self.net.occupied:
+        reuse = bool(kw.get("reuse_port"))
+        holder = self.net.udp.get(port)
+        if port in self.net.occupied or (holder is not None and not (reuse and holder.reuse_port)):
             raise OSError(98, f"error while attempting to bind on address {local_addr!r}: address already in use")
         protocol = protocol_factory()
-        ep = VUdp(self.net, self, protocol, port)
+        ep = VUdp(self.net, self, protocol, port, reuse)
         self.net.udp[port] = ep
+        if reuse:
+            self.net.shared.setdefault(port, []).append(ep)
         try:
             await asyncio.sleep(0)
         except BaseException:
